@@ -29,6 +29,7 @@ type HarnessPlan struct {
 	Solver    string          `json:"solver"`
 	Sticky    bool            `json:"mapOrderSticky"`
 	BMC       bool            `json:"bmc"`
+	Hunt      bool            `json:"hunt"` // BMC search mode: look for a violating execution, claim nothing if the solver runs out of time
 	Race      bool            `json:"race"`
 	BMCTime   int             `json:"bmcTimeoutS"`
 	MaxEvents int             `json:"maxEvents"`
@@ -170,9 +171,9 @@ func cmdCheck(args []string) {
 				}
 				solver := in.hp.Solver
 				if solver == "" {
-					solver = "cvc5"
+					solver = "z3"
 				}
-				in.bmc = sym.ModelCheck(pr, pr.ModPath+"/"+pkg, in.hp.Fn, in.params, solver, to*1000, in.hp.Race, in.hp.MaxEvents)
+				in.bmc = sym.ModelCheck(pr, pr.ModPath+"/"+pkg, in.hp.Fn, in.params, solver, to*1000, in.hp.Race, in.hp.MaxEvents, in.hp.Hunt)
 				in.res = &sym.RunResult{Harness: in.hp.Fn, Params: in.params, Reach: map[string]int{"end": 1}, Funcs: map[string]int{}, Stubs: map[string]int{}}
 				switch in.bmc.Verdict {
 				case "violation":
@@ -182,6 +183,8 @@ func cmdCheck(args []string) {
 					}
 					detail := strings.Join(in.bmc.TraceText, " ; ")
 					in.res.Violations = append(in.res.Violations, sym.Event{Kind: sym.EvViolation, Label: "bmc:" + in.bmc.Kind, Detail: detail, Choices: in.bmc.Schedule})
+				case "undecided":
+					in.res.Undecided = append(in.res.Undecided, in.bmc.Detail)
 				case "unknown":
 					in.res.Unknown = append(in.res.Unknown, sym.Event{Kind: sym.EvUnknown, Label: "bmc", Detail: in.bmc.Detail})
 				case "unsupported":
@@ -234,6 +237,11 @@ func cmdCheck(args []string) {
 				printedKnown[line] = true
 				fmt.Println(line)
 			}
+		}
+		for _, u := range r.Undecided {
+			msg := fmt.Sprintf("%s%v: search mode found no violating execution; %s (nothing is claimed for this program)", in.hp.Fn, in.params, u)
+			notes = append(notes, "search only: "+msg)
+			fmt.Println("SEARCH-ONLY " + msg)
 		}
 		for _, a := range r.Aborts {
 			msg := fmt.Sprintf("%s%v: %s: %s", in.hp.Fn, in.params, a.Label, firstLines(a.Detail, 12))
@@ -448,6 +456,9 @@ func (r *replayer) binary(repo, vdir, pkg string) (string, string) {
 		// widen native race windows: a random pause before every mutex Lock / channel operation of the
 		// repository (overlay copies only; /repo is not modified)
 		reLock := regexp.MustCompile(`(?m)^(\s*)([A-Za-z_][A-Za-z0-9_.]*)\.Lock\(\)`)
+		reUnlock := regexp.MustCompile(`(?m)^(\s*)([A-Za-z_][A-Za-z0-9_.]*)\.Unlock\(\)`)
+		reSend := regexp.MustCompile(`(?m)^(\s*)([A-Za-z_][A-Za-z0-9_.]*) <- `)
+		reRecv := regexp.MustCompile(`(?m)^[ \t]*[^\n/]*= <-[A-Za-z_][^\n]*$`)
 		for _, sub := range []string{"agent", "collection", "cdcn"} {
 			files, _ := os.ReadDir(filepath.Join(repo, sub))
 			for _, f := range files {
@@ -459,6 +470,15 @@ func (r *replayer) binary(repo, vdir, pkg string) (string, string) {
 					continue
 				}
 				out := reLock.ReplaceAllString(string(src), "${1}zzvfjit.Jitter(); ${2}.Lock()")
+				out = reUnlock.ReplaceAllString(out, "${1}zzvfjit.Jitter(); ${2}.Unlock()")
+				out = reSend.ReplaceAllString(out, "${1}zzvfjit.Jitter(); ${2} <- ")
+				out = reRecv.ReplaceAllStringFunc(out, func(l string) string {
+					t := strings.TrimLeft(l, " \t")
+					if strings.HasPrefix(t, "case") || strings.HasPrefix(t, "//") || strings.HasPrefix(t, "}") {
+						return l
+					}
+					return l[:len(l)-len(t)] + "zzvfjit.Jitter(); " + t
+				})
 				if out == string(src) {
 					continue
 				}
@@ -576,6 +596,19 @@ func nativeReplay(repo, vdir, replayPath string) (bool, string) {
 	cmd.Env = append(os.Environ(), "VF_REPLAY="+replayPath, "VF_HARNESS="+doc.Harness, fmt.Sprintf("VF_P0=%d", p0), fmt.Sprintf("VF_P1=%d", p1))
 	outb, _ := cmd.CombinedOutput()
 	out := string(outb)
+	bmcHit := func(out string) bool {
+		return strings.Contains(out, "DATA RACE") || strings.Contains(out, "VF-ASSERT-FAILED") || strings.Contains(out, "VF-DEADLOCK") ||
+			strings.Contains(out, "VF-PANIC") || strings.Contains(out, "panic:") || strings.Contains(out, "test timed out") || strings.Contains(out, "all goroutines are asleep")
+	}
+	if strings.HasPrefix(doc.Label, "bmc:") && !bmcHit(out) && !strings.Contains(out, "VF-ASSUME-FAILED") {
+		// second phase: many more repetitions with occasional long pauses (witnesses that need two
+		// goroutines to be delayed at the same time), stopping at the first failure
+		cmd2 := exec.Command("timeout", "400", bin, "-test.run", "^TestVFReplay$", "-test.timeout", "380s", "-test.v", "-test.count", "6000", "-test.failfast")
+		cmd2.Dir = repo
+		cmd2.Env = append(cmd.Env, "VF_JITTER=long")
+		outb2, _ := cmd2.CombinedOutput()
+		out = string(outb2)
+	}
 	if strings.Contains(out, "VF-ASSUME-FAILED") {
 		return false, "assumption failed natively\n" + tail(out, 10)
 	}
@@ -745,6 +778,7 @@ func writeEvidence(vdir, prop, tier string, seed int, insts []*instance, pp Prop
 	bmcStates, bmcTrans, bmcProgs, bmcQueries := 0, 0, 0, 0
 	bmcSolver := 0.0
 	var bmcSamples []interface{}
+	var bmcDecided, bmcSearch []string
 	for _, in := range insts {
 		if in.bmc == nil {
 			continue
@@ -755,7 +789,13 @@ func writeEvidence(vdir, prop, tier string, seed int, insts []*instance, pp Prop
 		bmcTrans += in.bmc.Transitions
 		bmcQueries += in.bmc.Queries
 		bmcSolver += in.bmc.SolverS
-		if len(bmcSamples) < 5 {
+		switch in.bmc.Verdict {
+		case "safe":
+			bmcDecided = append(bmcDecided, fmt.Sprintf("%s%v", in.hp.Fn, in.params))
+		case "undecided":
+			bmcSearch = append(bmcSearch, fmt.Sprintf("%s%v", in.hp.Fn, in.params))
+		}
+		if len(bmcSamples) < 8 {
 			bmcSamples = append(bmcSamples, map[string]interface{}{"program": in.hp.Fn, "params": in.params, "verdict": in.bmc.Verdict, "unrolled_steps": in.bmc.Steps,
 				"guarded_transitions": in.bmc.Transitions, "state_variables_per_step": in.bmc.StateVars, "solver_s": in.bmc.SolverS, "kind": in.bmc.Kind})
 		}
@@ -766,6 +806,8 @@ func writeEvidence(vdir, prop, tier string, seed int, insts []*instance, pp Prop
 		cov["traces_validated_against_impl"] = extraInt(extra, "replayed")
 		cov["samples"] = append(bmcSamples, samples...)
 		cov["bmc_programs"] = bmcProgs
+		cov["bmc_programs_decided_safe_for_every_schedule"] = bmcDecided
+		cov["bmc_programs_searched_without_verdict_nothing_claimed"] = bmcSearch
 		cov["bmc_queries"] = bmcQueries
 		cov["bmc_solver_time_s"] = bmcSolver
 		cov["states_note"] = "bounded model checking is symbolic: 'states' counts the unrolled symbolic state vectors (one per step per program), 'transitions' the guarded event transitions encoded; each query covers every schedule of the program up to the unrolling depth, which equals the maximal number of steps of the program (complete for terminating programs)"
